@@ -1,6 +1,7 @@
 //! `hv_net <mode> --seed N --cases N --out DIR --tier quick|thorough [--replay FILE]`
 //! modes: c35 (networking closures + demux routing), c39 (quorum helpers), c41 (compiled flows)
 mod c35;
+mod c35_dm;
 mod c39;
 mod c41;
 mod val;
